@@ -369,6 +369,32 @@ theorem up_zero : (Cvt.up (0 : Float32) : Float) = 0 := by decide +kernel
 theorem up_zero32 (s : Sign) : (Cvt.up (zero32 s) : Float) = zero64 s := by cases s <;> decide +kernel
 theorem up_one : (Cvt.up (1 : Float32) : Float) = 1 := by decide +kernel
 
+/-! ## 4b. NaN propagation (the model holds one NaN, so "is NaN" is an equation) -/
+
+theorem unpack_nan64 : FMO.nan64.toModel.unpack = .notANumber := FMR.repack_nan Format.binary64
+theorem unpack_nan32 : FMO.nan32.toModel.unpack = .notANumber := FMR.repack_nan Format.binary32
+
+/-- every NaN double is the canonical NaN. -/
+theorem eq_nan64_of_isNaN (x : Float) (h : Scalar.isNaN x = true) : x = FMO.nan64 := by
+  rw [← pack_unpack_float x, FMR.eq_nan_of_isNaN x.toModel.unpack (by rw [← FMO.isNaN_float]; exact h)]; rfl
+
+theorem eq_nan32_of_isNaN (x : Float32) (h : Scalar.isNaN x = true) : x = FMO.nan32 := by
+  rw [← pack_unpack_float32 x, FMR.eq_nan_of_isNaN x.toModel.unpack (by rw [← FMO.isNaN_float32]; exact h)]; rfl
+
+theorem nan_sub_float (y : Float) : FMO.nan64 - y = FMO.nan64 := by
+  rw [FMO.sub_float, unpack_nan64]; cases y.toModel.unpack <;> rfl
+
+theorem nan_div_float (y : Float) : FMO.nan64 / y = FMO.nan64 := by
+  rw [FMO.div_float, unpack_nan64]; cases y.toModel.unpack <;> rfl
+
+theorem down_nan : (Cvt.down FMO.nan64 : Float32) = FMO.nan32 := by decide +kernel
+
+theorem mul_nan_float32 (x : Float32) : x * FMO.nan32 = FMO.nan32 := by
+  rw [mul_float32, unpack_nan32]; cases x.toModel.unpack <;> rfl
+
+theorem add_nan_float32 (x : Float32) : x + FMO.nan32 = FMO.nan32 := by
+  rw [add_float32, unpack_nan32]; cases x.toModel.unpack <;> rfl
+
 /-! ## 5. closed instances (non-vacuity; the kernel evaluates the IEEE operations) -/
 
 example : (0 : Float) * (-3.5) = nzero64 := by decide +kernel
